@@ -74,6 +74,129 @@ def has_cond(conds, m, k):
     return None
 
 
+class VState:
+    """What the recursive validator is a function of: the tree, the symbolic context, and its *state* - the scope map
+    (HashMap<String, String>) and the last used name (String), passed as two parameters or bundled in a struct.  The rules talk about
+    the two state places, wherever they live."""
+
+    def __init__(self, prog, f):
+        pn, tys = f.param_names(), list(f.param_tys)
+        self.ok, self.why = False, ""
+        self.prog = prog
+        self.tys = list(f.param_tys)
+        self.shared = []
+        self.fpath = f.path
+        self.n = len(pn)
+        self.nz = None
+        tree_i = [i for i, t in enumerate(tys) if t.endswith("HctlTreeNode") and not t.startswith("&mut")]
+        ctx_i = [i for i, t in enumerate(tys) if "SymbolicContext" in t and not t.startswith("&mut")]
+        if len(tree_i) != 1 or len(ctx_i) != 1:
+            self.why = "expected exactly one tree and one symbolic-context parameter"
+            return
+        self.tree_i, self.ctx_i = tree_i[0], ctx_i[0]
+        self.tree, self.ctx = ("param", pn[self.tree_i]), ("param", pn[self.ctx_i])
+        places = []
+        for i, (p, t) in enumerate(zip(pn, tys)):
+            if i in (self.tree_i, self.ctx_i):
+                continue
+            if t.startswith("&mut"):
+                # shared mutable state: admissible only if every successful call restores it (verified per shape, see `restores`)
+                self.shared.append(p)
+                t = t[len("&mut"):].strip()
+            base = t.lstrip("&").strip()
+            adt = prog.adt(base) if hasattr(prog, "adt") else None
+            if adt is not None and adt.get("kind") == "struct" and adt.get("variants"):
+                for fld in adt["variants"][0]["fields"]:
+                    places.append((i, ("field", ("param", p), fld["name"]), fld["ty"]))
+            else:
+                places.append((i, ("param", p), base))
+        maps = [x for x in places if "HashMap<std::string::String, std::string::String" in x[2] or "BTreeMap<std::string::String, std::string::String" in x[2]]
+        names = [x for x in places if x[2] in ("std::string::String", "String")]
+        extra = [x for x in places if x not in maps and x not in names]
+        if len(maps) != 1 or len(names) != 1 or extra:
+            self.why = f"the state is {[(terms.pt(x[1]), x[2][:40]) for x in places]}: expected exactly one scope map and one name"
+            return
+        self.scope_i, self.scope = maps[0][0], maps[0][1]
+        self.name_i, self.name = names[0][0], names[0][1]
+        self.ok = True
+
+    def arity(self, a):
+        return len(a) == self.n
+
+    def unframe(self, t, memo=None):
+        """Induction hypothesis for shared state: a recursive call that returns Ok leaves the state as it found it, so
+        `mut(X <- validate(..))` (X after the call) is X.  (Whatever follows a recursive call is only reached when it returned Ok:
+        rule R2 checks that every recursive result is propagated with `?`.)"""
+        if not self.shared:
+            return t
+        if memo is None:
+            memo = {}
+        if not isinstance(t, tuple) or not t:
+            return t
+        hit = memo.get(id(t))
+        if hit is not None and hit[0] is t:
+            return hit[1]
+        r = tuple(self.unframe(x, memo) if isinstance(x, tuple) else x for x in t)
+        if r[0] == "mut" and r[2][0] in ("call", "rec") and isinstance(r[2][1], str) and r[2][1] == self.fpath:
+            r = r[1]
+        elif all(a is b for a, b in zip(r, t)):
+            r = t
+        memo[id(t)] = (t, r)
+        return r
+
+    def undo(self, t, conds):
+        """insert(k, v) then remove(k) on a map that did not have k, and push(c) then pop(), leave the value as it was."""
+        n = 0
+        while isinstance(t, tuple) and t and t[0] == "mut" and t[1][0] == "mut" and n < 8:
+            n += 1
+            outer, inner = t[2], t[1][2]
+            lo = outer[1].rsplit("::", 1)[-1] if outer[0] == "call" and isinstance(outer[1], str) else None
+            li = inner[1].rsplit("::", 1)[-1] if inner[0] == "call" and isinstance(inner[1], str) else None
+            base = t[1][1]
+            if lo == "pop" and li == "push" and not outer[2] and len(inner[2]) == 1:
+                t = base
+                continue
+            if lo == "remove" and li == "insert" and len(outer[2]) == 1 and len(inner[2]) == 2 and outer[2][0] == inner[2][0]:
+                k = outer[2][0]
+                absent = False
+                for cnd, pol in conds:
+                    h = q.as_has(cnd)
+                    if h is not None and not pol and h[0] == base and h[1] == k:
+                        absent = True
+                if absent:
+                    t = base
+                    continue
+            break
+        return t
+
+    def child_of(self, a):
+        return a[self.tree_i]
+
+    def ctx_of(self, a):
+        return a[self.ctx_i]
+
+    def _place(self, a, i, place):
+        v = a[i]
+        if place[0] == "field":
+            if v[0] == "call" and isinstance(v[1], str) and v[1].endswith("::default") and not v[2]:
+                ty = self.tys[i].lstrip("&").strip()
+                d = self.prog.resolve_local("biodivine_hctl_model_checker", v[1]) or \
+                    self.prog.resolve_local("biodivine_hctl_model_checker", f"<{ty} as std::default::Default>::default")
+                if d is not None and d.derived:
+                    # #[derive(Default)]: every field is its type's default value
+                    return ("call", "std::default::Default::default", ())
+            v = terms.mk_field(v, place[2])
+            if self.nz is not None:
+                v = self.nz(v)
+        return v
+
+    def scope_of(self, a):
+        return self._place(a, self.scope_i, self.scope)
+
+    def name_of(self, a):
+        return self._place(a, self.name_i, self.name)
+
+
 def is_rec(t, fn_suffix, args_pred):
     """t == proj(rec-call(args), Ok, 0) (the `?` of a recursive call) with args satisfying args_pred."""
     if t[0] == "proj" and str(t[2]).rsplit("::", 1)[-1] == "Ok" and t[3] == 0:
@@ -117,15 +240,17 @@ def run(prog, rep):
     rep.functions.add(f.qual)
     where = f"{f.file}:{f.line}"
     pn = f.param_names()
-    rep.check(len(pn) == 4 and not f.param_tys[1].startswith("&mut") and not f.param_tys[2].startswith("&mut"), "C07-R3", "validate/params", where,
-              "parameters: (tree, scope map by value, last name by value, context)",
-              f"parameters are {list(zip(pn, [t[:50] for t in f.param_tys]))}: extra or shared mutable state lets the result for a node depend on what was processed before "
-              "(a callee can leak bindings into a sibling)")
-    if len(pn) < 4:
+    vs = VState(prog, f)
+    rep.check(vs.ok, "C07-R3", "validate/params", where,
+              "parameters: the tree, the context, and by-value state consisting of exactly one scope map and one last-used name",
+              f"parameters are {list(zip(pn, [t[:50] for t in f.param_tys]))}: {vs.why}; extra or shared mutable state lets the result for a node depend on what was "
+              "processed before (a callee can leak bindings into a sibling)")
+    if not vs.ok:
         return
-    tree, scope, name, ctx = (("param", x) for x in pn[:4])
+    tree, scope, name, ctx = vs.tree, vs.scope, vs.name, vs.ctx
     eng = terms.Engine(prog, inline=True, hooks=E.Hooks([UTILS], opaque_names=[VALIDATE]))
     nz = norm.Normalizer()
+    vs.nz = nz
 
     def strip_prop(t):
         """Drop the exits that merely propagate the error of a recursive call (`rec(..)?`)."""
@@ -143,12 +268,45 @@ def run(prog, rep):
         return t
 
     def spec(shape):
-        s = eng.specialise(f, {pn[0]: E.node_term(shape)})
+        s = eng.specialise(f, {pn[vs.tree_i]: E.node_term(shape)})
         if s is None:
             return None, None
         # the full value: exits taken by `?` included (a check delegated to a helper that is called with `?` is still a check)
         full = getattr(s, "ret_full", None) or s.ret
-        return s, nz(strip_prop(nz(partial.simplify(full))))
+        full = nz(partial.simplify(vs.unframe(full)))
+        if vs.shared:
+            check_restored(shape, s, full)
+        return s, nz(strip_prop(full))
+
+    restored_keys = set()
+
+    def check_restored(shape, s, full):
+        """Shared (&mut) state: on every exit that returns Ok, the scope map and the name are what they were on entry."""
+        key = sem.short(shape[2][0] if shape[0] == "ctor" and shape[2] else shape, 40) if isinstance(shape, tuple) else str(shape)
+        key = terms.pt(shape)[:60]
+        if key in restored_keys:
+            return
+        restored_keys.add(key)
+        for place, pname in ((vs.scope, pn[vs.scope_i]), (vs.name, pn[vs.name_i])):
+            if pname not in vs.shared:
+                continue
+            out = getattr(s, "mut_out", {}).get(pname)
+            good, why = True, ""
+            if out is not None:
+                out = nz(partial.simplify(vs.unframe(out)))
+                for cs, leaf in leaves(out):
+                    pcs = [("if", c_, p_) for c_, p_ in cs]
+                    val = nz(terms.assume(full, pcs))
+                    lv = leaves(val)
+                    if lv and all(err(x) for _, x in lv):
+                        continue                      # the call fails on this path: the state is dropped by the caller of the recursion
+                    fin = nz(vs.undo(leaf, list(cs)))
+                    if fin != ("param", pname):
+                        good, why = False, f"on a successful exit `{pname}` is left as {sem.short(fin, 160)}"
+            rep.check(good, "C07-R3", f"validate/restore:{pname}:{key}", where,
+                      "shared state is restored on every successful exit (induction over the tree: recursive calls restore it, this node undoes its own change)",
+                      f"the validator shares `{pname}` with its callers (&mut) and does not restore it: {why}; what a sibling sub-formula sees then depends on what was "
+                      "processed before")
 
     def report(key, good, detail_ok, detail_bad):
         rep.check(good, "C07-R1", key, where, detail_ok, detail_bad)
@@ -207,7 +365,7 @@ def run(prog, rep):
         good = t is not None and ok(t) and t[2][0] == E.node_term(sh)
         report(f"shape:{kind}", good, f"{kind}: Ok(tree)", f"{kind} terminal: returns {sem.short(t, 120) if t else None}")
     # ---- Unary / Binary
-    same_scope = lambda a, ch: len(a) == 4 and a[0] == ch and a[1] == scope and a[2] == name and a[3] == ctx      # noqa: E731
+    same_scope = lambda a, ch: vs.arity(a) and vs.child_of(a) == ch and vs.scope_of(a) == scope and vs.name_of(a) == name and vs.ctx_of(a) == ctx      # noqa: E731
     for op in ("Not", "AG"):
         opc = ("ctor", E.UOP + op, ())
         s, t = spec(E.shape_unary(op, c))
@@ -247,12 +405,13 @@ def run(prog, rep):
                         newname = None
                         if g:
                             g = is_rec(mk[2][0], "validate_and_rename_recursive",
-                                       lambda a: len(a) == 4 and a[0] == c and scope_plus(a[1], scope, var, name) is not None
-                                       and a[2] == scope_plus(a[1], scope, var, name) and a[3] == ctx)
+                                       lambda a: vs.arity(a) and vs.child_of(a) == c and scope_plus(vs.scope_of(a), scope, var, name) is not None
+                                       and vs.name_of(a) == scope_plus(vs.scope_of(a), scope, var, name) and vs.ctx_of(a) == ctx)
                         if g:
-                            newname = scope_plus(mk[2][0][1][2][1], scope, var, name)
+                            child_scope = vs.scope_of(mk[2][0][1][2])
+                            newname = scope_plus(child_scope, scope, var, name)
                             renamed = nz(partial.simplify(mk[2][1]))
-                            g = renamed == newname or q.as_at(renamed) == (mk[2][0][1][2][1], var)
+                            g = renamed == newname or q.as_at(renamed) == (child_scope, var)
                         if not g:
                             good, why = False, f"accepts with {sem.short(leaf, 200)} under already-bound={h}"
                     elif err(leaf):
@@ -298,6 +457,16 @@ def check_tries(rep, s, key, n, where):
         rep.unresolved("C07-R2", f"propagate:{key}", where, "not evaluated")
         return
     tries = [r for r in s.returns if r[5] == "try" and r[0][0] in ("call", "rec") and isinstance(r[0][1], str) and r[0][1].endswith("validate_and_rename_recursive")]
+    if len(tries) != n:
+        # the `?` may live in a helper that was inlined: then the exit is part of the value - a leaf Err(e) with e the error of a recursive call
+        full = getattr(s, "ret_full", None) or s.ret
+        props = set()
+        for x in [full] + list(subterms(full)):
+            if x[0] == "ctor" and str(x[1]).rsplit("::", 1)[-1] == "Err" and len(x[2]) == 1 and x[2][0][0] == "proj" and str(x[2][0][2]).rsplit("::", 1)[-1] == "Err":
+                r_ = x[2][0][1]
+                if r_[0] in ("call", "rec") and isinstance(r_[1], str) and r_[1].endswith("validate_and_rename_recursive"):
+                    props.add(r_)
+        tries = list(props)
     rep.check(len(tries) == n, "C07-R2", f"propagate:{key}", where, f"{n} recursive result(s) propagated with `?`",
               f"{len(tries)} of {n} recursive results are propagated with `?`: an error in a child can be swallowed")
 
@@ -370,9 +539,12 @@ def check_collection_and_support(prog, rep):
                 holds = (op in ("<=",) and lhs_is_count) or (op in (">=",) and not lhs_is_count)
                 fails = (op in (">",) and lhs_is_count) or (op in ("<",) and not lhs_is_count)
                 good = (holds and not neg) or (fails and neg)
-    for r in s.returns:
-        if r[0] == ("lit", False):
-            for cnd, pol in q.conds(r[1]):
+    import tokspec
+    exits = [(r[0], list(q.conds(r[1]))) for r in s.returns]
+    exits += [(leaf, list(cs)) for cs, leaf in tokspec.leaves(t)]          # the same exits when the loop lives in an inlined helper
+    for val, cnds in exits:
+        if val == ("lit", False):
+            for cnd, pol in cnds:
                 if cnd[0] == "bin" and "collect_unique_hctl_vars" in pt(cnd) and "extra_state_variables" in pt(cnd):
                     lhs_is_count = "collect_unique_hctl_vars" in pt(cnd[2])
                     if pol and ((cnd[1] == ">" and lhs_is_count) or (cnd[1] == "<" and not lhs_is_count)):
@@ -415,11 +587,18 @@ def check_pass_through(prog, rep):
                   "analyse_formulae evaluates trees that did not pass validate_props_and_rename_vars")
     vp = prog.lib_fn(UTILS + "validate_props_and_rename_vars")
     if vp is not None:
-        s = terms.Engine(prog, inline=False).summary(vp)
+        # (helpers of the module inlined: a constructor of the bundled state is seen through)
+        s = terms.Engine(prog, inline=True, hooks=E.Hooks([UTILS], opaque_names=[VALIDATE])).summary(vp)
         calls = [x for x in s.sites if x.kind == "call" and x.is_call_to("validate_and_rename_recursive")]
         pn = vp.param_names()
-        good = len(calls) == 1 and calls[0].args[0] == ("param", pn[0]) and terms.is_fresh_collection(calls[0].args[1]) and \
-            terms.is_fresh_collection(calls[0].args[2]) and calls[0].args[3] == ("param", pn[1]) and s.ret == calls[0].term
+        fv = prog.lib_fn(VALIDATE)
+        vs = VState(prog, fv) if fv is not None else None
+        good = len(calls) == 1 and vs is not None and vs.ok and vs.arity(calls[0].args)
+        if good:
+            vs.nz = norm.Normalizer()
+            a = calls[0].args
+            good = vs.child_of(a) == ("param", pn[0]) and terms.is_fresh_collection(vs.scope_of(a)) and terms.is_fresh_collection(vs.name_of(a)) \
+                and vs.ctx_of(a) == ("param", pn[1]) and norm.Normalizer()(s.ret) == norm.Normalizer()(calls[0].term)
         rep.check(good, "C07-R4", "validate_props_and_rename_vars/entry", f"{vp.file}:{vp.line}", "starts the validator with an empty scope and an empty name",
                   "the validation entry does not start from an empty scope map and an empty name")
     rep.floor("C07-R4", 26)
